@@ -31,9 +31,11 @@ CHECKS = {
         "Chopper.from_disk_chopper(npulses=1..4) is replayed on a rotating-disk simulator written from the module "
         "documentation (open inside, closed just outside, duration, multiset equality with the simulator's openings in "
         "the covered span, so duplicates and omissions are both caught); out-of-phase frequencies and overlapping slit "
-        "sets (also modulo 360 deg) are constructed and must raise ValueError.",
+        "sets (also modulo 360 deg) are constructed and must raise ValueError, through the DiskChopper methods and "
+        "through the cascade entry point alike.",
         "Trusted: the disk kinematics stated in the module docs; tolerance bands: |delta| in [1e-6,1e-2] rejected, "
-        "<= 1e-10 accepted. Which time span the result covers is not asserted (the property does not state it).",
+        "<= 1e-10 accepted. Which rotations exactly the result covers is not asserted (the property does not state "
+        "it); only that an expansion over n pulses spans n pulse periods up to one rotation at either end.",
         "4/C10",
     ),
     "C07": (
@@ -146,8 +148,9 @@ CHECKS = {
         "written from the format document: header, BAT size, unique names, expected block set/types, extents start at "
         "the BAT end, are contiguous and end at EOF, each block decodes in exactly its declared size; re-open byte "
         "order and data_block_names; the same calls in another order give the same BAT order and sizes.",
-        "Trusted: vf/ref/sqw.py (self-tested on hand-assembled bytes), the format document. Strings are ASCII; DND "
-        "metadata always has the 4 axes of the format.",
+        "Trusted: vf/ref/sqw.py (self-tested on hand-assembled bytes), the format document. Targets: BytesIO, paths "
+        "(any suffix) and binary files opened by the caller. Non-ASCII text may be refused (ValueError) but never "
+        "written inconsistently; DND metadata always has the 4 axes of the format.",
         "4/C12",
     ),
     "C13": (
@@ -180,7 +183,9 @@ CHECKS = {
         "(independent parser) and yield exactly the supplied tags, values (strings up to surrounding blanks, numbers "
         "re-read exactly, value(su) to printed precision, _su columns = sqrt(variance)), loop shapes and order; comments "
         "only in the comment channel; role ids refer to exactly one author; ASCII only. Builder programs are generated "
-        "as call sequences incl. copy and repeated save.",
+        "as call sequences incl. copy and repeated save; targets are StringIO, str / Path (any suffix) and text files "
+        "opened by the caller; tags that are not data names (blanks, line breaks, empty, non-ASCII) must be refused or "
+        "escaped, never written as they are.",
         "Trusted: vf/ref/cif.py (self-tested on valid and invalid documents). Values <= 200 chars (no line wrapping by "
         "the writer); any ASCII escape of non-ASCII text is accepted; unrepresentable strings may be refused with "
         "ValueError; block names non-empty.",
